@@ -43,6 +43,10 @@ func (RawStr) Decode(b []byte) (int, interface{}) { return len(b), string(b) }
 func (RawStr) GetSize(d interface{}) int          { return len(d.(string)) }
 func (RawStr) GetEncodedSize(b []byte) int        { return len(b) }
 
+// defOff is a defined (named) scalar type: values of such types go through
+// TypeEncoder and must come back with the same dynamic type.
+type defOff int64
+
 var intKinds = []string{"i8", "i16", "i32", "i64", "u16", "u32", "u64", "int"}
 
 func (v *ValSpec) IsNone() bool { return v == nil || v.Kind == "none" }
@@ -85,6 +89,12 @@ func (v *ValSpec) Encoder() encode.Encoder {
 		return RawStr{}
 	case "bytesN":
 		return encode.Bytes{Size: v.N}
+	case "defI64":
+		e, err := encode.NewTypeEncoderEndian(defOff(0), binary.LittleEndian)
+		if err != nil {
+			panic(err)
+		}
+		return e
 	case "structLE":
 		e, err := encode.NewTypeEncoderEndian(TStruct{}, binary.LittleEndian)
 		if err != nil {
@@ -129,6 +139,12 @@ func (v *ValSpec) Slice() interface{} {
 		s := make([]int64, n)
 		for i := range s {
 			s[i] = v.Ints[i]
+		}
+		return s
+	case "defI64":
+		s := make([]defOff, n)
+		for i := range s {
+			s[i] = defOff(v.Ints[i])
 		}
 		return s
 	case "u16":
@@ -210,6 +226,8 @@ func (v *ValSpec) At(i int) interface{} {
 		return int32(v.Ints[i])
 	case "i64":
 		return v.Ints[i]
+	case "defI64":
+		return defOff(v.Ints[i])
 	case "u16":
 		return uint16(v.Ints[i])
 	case "u32":
@@ -247,7 +265,7 @@ func (v *ValSpec) RefEnc(i int) []byte {
 		return le(uint64(v.Ints[i]), 2)
 	case "i32", "u32":
 		return le(uint64(v.Ints[i]), 4)
-	case "i64", "u64", "int":
+	case "i64", "u64", "int", "defI64":
 		return le(uint64(v.Ints[i]), 8)
 	case "str16":
 		s := v.Strs[i]
@@ -537,7 +555,7 @@ func sameEnc(kind string, a, b int64) bool {
 	return a == b
 }
 
-var allValKinds = []string{"none", "i8", "i16", "i32", "i64", "u16", "u32", "u64", "int", "str16", "bytesN", "structLE", "structBE", "rawstr"}
+var allValKinds = []string{"none", "i8", "i16", "i32", "i64", "u16", "u32", "u64", "int", "str16", "bytesN", "structLE", "structBE", "rawstr", "defI64"}
 
 // pickKind chooses a value kind; n is the number of keys (i8 cannot give n
 // distinct values beyond 256 but duplicates are legitimate input anyway).
